@@ -154,6 +154,7 @@ class World(sp.Obs):
         self.nest_level = collections.Counter()   # thread name -> nested Parallel calls in progress
         self.explicit_nest = collections.Counter()  # ... of which with an explicit backend argument
         self.inline_in_start = collections.Counter()
+        self.factory_kwargs = []
 
     # -- generic log
     def ev(self, *a):
@@ -174,6 +175,10 @@ class World(sp.Obs):
                                        self.nest_level[me.name] if me else 0,
                                        self.explicit_nest[me.name] if me else 0))
         self.ev("note", kind, *a)
+
+    def factory_kw(self, kind, kw):
+        # the settings a Parallel object passes to the pool / executor factory, every time it (re)creates one
+        self.factory_kwargs.append((kind, kw.get("max_nbytes", "<absent>"), len(self.events)))
 
     def next_pool_index(self):
         self.pool_idx += 1
@@ -308,7 +313,7 @@ def install_seams(w, case):
     jp.time = clock
     jb.gc = types.SimpleNamespace(collect=lambda *a: 0)
     jb.ThreadPool = lambda n=None, *a, **k: sp.SimThreadPool(n, w, False, "tw")
-    jb.MemmappingPool = lambda n=None, *a, **k: sp.SimThreadPool(n, w, True, "mw")
+    jb.MemmappingPool = lambda n=None, *a, **k: (w.factory_kw("pool", k), sp.SimThreadPool(n, w, True, "mw"))[1]
     reg = sp.ExecutorRegistry(w)
     w.registry = reg
     jb.get_memmapping_executor = reg.get
@@ -397,6 +402,8 @@ def run_parallel_case(case, consumer=None, setup=None):
         kw = dict(n_jobs=case["n_jobs"], backend=BACKEND_OF[fl], batch_size=case["batch_size"],
                   pre_dispatch=case["pre_dispatch"], return_as=case.get("return_as", "list"),
                   timeout=case.get("timeout"), verbose=case.get("verbose", 0))
+        if case.get("max_nbytes") is not None:
+            kw["max_nbytes"] = case["max_nbytes"]          # a backend setting that has to reach every pool / executor
         try:
             p = Parallel(**kw)
             w.parallel = p
